@@ -115,6 +115,16 @@ async def run_case(chk, rng, lines, impl, qa):
                 for i2, d2 in long_idx.items():        # the reset discarded these as well: send them again
                     await a.cmd(b"\x18" + struct.pack("<IH", sid, i2) + d2, n=10)
                 chk.count("exec:long-data-abandoned-by-reset")
+        stale = {}
+        if nparams and rng.random() < 0.2:
+            # long data for a parameter that this execution then flags NULL: NULL is what is bound, and the data must not
+            # survive into the next execution of the statement (which supplies its values inline)
+            j = rng.randrange(nparams)
+            if j not in long_idx:
+                stale[j] = b"left over ' \\ ? long data"
+                await a.cmd(b"\x18" + struct.pack("<IH", sid, j) + stale[j], n=10)
+                params[j] = (T_BLOB, False, None, params[j][3])
+                chk.count("exec:long-data-for-a-null-parameter")
         before = len(s.log)
         payload = com_stmt_execute(sid, params, caps=caps, skip=list(long_idx))
         out = await a.cmd(payload, n=50)
@@ -145,7 +155,7 @@ async def run_case(chk, rng, lines, impl, qa):
                 chk.fail("received SQL is not the template with each placeholder replaced by a literal of its value",
                          dict(template=template, values=[repr(v) for v in vals], received=got[0]))
         if not has_float:
-            bufs = ",".join("%d=%s" % (i, hexs(d)) for i, d in sorted(long_idx.items())) or "-"
+            bufs = ",".join("%d=%s" % (i, hexs(d)) for i, d in sorted({**long_idx, **stale}.items())) or "-"
             lines.append("par exec %d %d %s %s %s" % (1 if qa else 0, nparams, hexs(template.encode("utf8")), bufs, hexs(payload[5:])))
             impl.append("sql=%s attrs=- cursor=0" % hexs(got[0].encode("utf8")) if len(got) == 1 else "err")
     await a.finish()
